@@ -16,6 +16,7 @@ Transport model (identical on both sides):
 No pymodbus function is replaced: only the module references `time`, `select`, `socket` of pymodbus.client.sync,
 `time` of pymodbus.transaction and pymodbus.framer.rtu_framer, and `serial.Serial` are swapped for fakes while a
 case runs."""
+import struct
 import contextlib
 import logging
 import socket as real_socket
@@ -358,6 +359,21 @@ def classify(out, exc):
         return {'kind': 'other', 'repr': '%s: %r' % (type(e).__name__, out)}
 
 
+def prebuilt(req):
+    """the skip_encode form of a register write: what client.write_register(a, payload[0], skip_encode=True) /
+    client.write_registers(a, payload, skip_encode=True) build from BinaryPayloadBuilder.build() (a list of 2-byte strings).
+    The frame on the wire is the same, byte for byte."""
+    from pymodbus.register_write_message import WriteSingleRegisterRequest, WriteMultipleRegistersRequest
+    plain = req.encode()
+    if isinstance(req, WriteSingleRegisterRequest):
+        new = WriteSingleRegisterRequest(req.address, struct.pack('>H', req.value), skip_encode=True)
+    elif isinstance(req, WriteMultipleRegistersRequest) and len(req.values) == req.count and req.byte_count == 2 * req.count:
+        new = WriteMultipleRegistersRequest(req.address, [struct.pack('>H', v) for v in req.values], skip_encode=True)
+    else:
+        return req
+    return new if new.encode() == plain else req
+
+
 def run_real(case):
     """-> list of per-call observations (same shape as the model's answer)"""
     cfg = case['cfg']
@@ -375,7 +391,7 @@ def run_real(case):
             clock.ops = 0
             clock.t += 10.0                       # the application does something else between two calls
             t0 = clock.t
-            req = msggen.mk_req(call['req'])
+            req = prebuilt(msggen.mk_req(call['req'])) if call.get('prebuilt') else msggen.mk_req(call['req'])
             req.unit_id = call['unit']
             out, exc = None, None
             try:
@@ -658,7 +674,12 @@ def gen_call(rng, cfg, tid, kinds=None, nreact=None, unit=None, t=None):
         # used only with values that the library itself can carry
         if expected_reply({'expect': resp, 'unit': u}, cfg['framer'], tid) is None:
             continue
-        return {'req': req, 'unit': u, 'script': rs, 'kinds': ks, 'resp': resp}
+        call = {'req': req, 'unit': u, 'script': rs, 'kinds': ks, 'resp': resp}
+        if req['t'] in ('writeRegister', 'writeRegisters') and rng.random() < 0.35:
+            # the application hands over an already encoded payload (BinaryPayloadBuilder.build() + skip_encode=True): the same
+            # bytes go out, the request object holds bytes where it otherwise holds ints
+            call['prebuilt'] = True
+        return call
     raise RuntimeError('no clean frame found')
 
 
@@ -686,7 +707,7 @@ def canon_obs(o):
 def strip_case(c):
     """the replayable part of a case (no generator bookkeeping)"""
     return {'cfg': c['cfg'], 'tid0': c.get('tid0', 0), 'kind': c.get('kind', 'history'),
-            'calls': [{k: v for k, v in call.items() if k in ('req', 'unit', 'script', 'expect', 'resp', 'kinds')}
+            'calls': [{k: v for k, v in call.items() if k in ('req', 'unit', 'script', 'expect', 'resp', 'kinds', 'prebuilt')}
                       for call in c['calls']]}
 
 
